@@ -1529,3 +1529,33 @@ func (t *tokenizer) run() State {
 
 // ValidUTF8 reports whether s is valid UTF-8 (helper for callers).
 func ValidUTF8(s string) bool { return utf8.ValidString(s) }
+
+// DecodeRefs decodes the character references of s as the tokenizer does in an
+// attribute value (attr=true) or in text (attr=false). NUL is left alone.
+func DecodeRefs(s string, attr bool) string {
+	t := &tokenizer{in: []byte(s)}
+	ret := Data
+	if attr {
+		ret = AttrValueDQ
+	}
+	var out []byte
+	for t.pos < len(t.in) {
+		c := t.in[t.pos]
+		if c != '&' {
+			out = append(out, c)
+			t.pos++
+			continue
+		}
+		t.pos++
+		t.ret = ret
+		t.attr.Value = ""
+		t.textBuf = t.textBuf[:0]
+		t.charRef()
+		if attr {
+			out = append(out, t.attr.Value...)
+		} else {
+			out = append(out, t.textBuf...)
+		}
+	}
+	return string(out)
+}
